@@ -129,7 +129,29 @@ func parseSpecSigs(text string) map[string]*SpecFn {
 		}
 		out[name] = sf
 	}
+	// single-field constructors and their accessors of declared datatypes: (ctor (acc Sort))
+	for _, dt := range datatypeRe.FindAllStringSubmatch(text, -1) {
+		sortName := dt[1]
+		start := strings.Index(text, dt[0]) + len(dt[0])
+		for _, m := range ctorRe.FindAllStringSubmatch(text[start:minInt(len(text), start+2000)], -1) {
+			out[m[1]] = &SpecFn{Name: m[1], Args: []string{m[3]}, Ret: sortName}
+			out[m[2]] = &SpecFn{Name: m[2], Args: []string{sortName}, Ret: m[3]}
+			if strings.Contains(m[0], "\n\n") {
+				break
+			}
+		}
+	}
 	return out
+}
+
+var datatypeRe = regexp.MustCompile(`\(declare-datatypes \(\((\w+) 0\)\)`)
+var ctorRe = regexp.MustCompile(`\((\w+) \((\w+) (\w+)\)\)`)
+
+func minInt(a, b int) int {
+	if a < b {
+		return a
+	}
+	return b
 }
 
 // readSexp reads one s-expression (atom or list) starting at i; returns it and the index after.
@@ -1186,6 +1208,55 @@ func (fx *FnExec) evalCallC(x *ast.CallExpr, env *evalEnv) (cval, error) {
 		}
 		fx.declareFun(fn.Name, sorts, "Int")
 		return cval{S: "(" + fn.Name + " " + strings.Join(args, " ") + ")", Sort: "Int", T: types.Typ[types.Int]}, nil
+	}
+	switch fn.Name {
+	case "witem", "wlen", "ditem", "dlen", "ritem", "rlen", "rpos":
+		v, err := fx.evalC(x.Args[0], env)
+		if err != nil {
+			return cval{}, err
+		}
+		ref := streamRef(v)
+		if fn.Name == "ditem" || fn.Name == "dlen" {
+			if v.Sort != "Slice" {
+				return cval{}, fmt.Errorf("%s: not a byte slice", fn.Name)
+			}
+			ref = "(s.arr " + v.S + ")"
+		}
+		var r string
+		var rs string
+		var kerr error
+		fx.withHeap(env.heap, func() {
+			switch fn.Name {
+			case "wlen":
+				r, rs = "(select "+fx.wlen()+" "+ref+")", "Int"
+			case "dlen":
+				r, rs = "(select "+fx.dlen()+" "+ref+")", "Int"
+			case "rlen":
+				r, rs = "(select "+fx.rlen()+" "+ref+")", "Int"
+			case "rpos":
+				r, rs = "(select "+fx.rpos()+" "+ref+")", "Int"
+			default:
+				k, err := fx.evalC(x.Args[1], env)
+				if err != nil {
+					kerr = err
+					return
+				}
+				h := map[string]func() string{"witem": fx.witems, "ditem": fx.ditems, "ritem": fx.ritems}[fn.Name]()
+				r, rs = "(select (select "+h+" "+ref+") "+k.S+")", "Item"
+			}
+		})
+		if kerr != nil {
+			return cval{}, kerr
+		}
+		return cval{S: r, Sort: rs}, nil
+	case "bytesStr": // content of a []byte as a string
+		v, err := fx.evalC(x.Args[0], env)
+		if err != nil {
+			return cval{}, err
+		}
+		var r string
+		fx.withHeap(env.heap, func() { r = fx.bytesAsStr(v.S) })
+		return cval{S: r, Sort: "Str", T: types.Typ[types.String]}, nil
 	}
 	if fn.Name == "gsel" || fn.Name == "gstore" {
 		// ghost arrays: gsel(a, k), gstore(a, k, v)
